@@ -1,5 +1,6 @@
 import IsoMdl.Props.C03
 import IsoMdl.Lemmas.Report
+import IsoMdl.Model.ResponseFacts
 /-
 C04 — Elements reported as issuer-authenticated are bound to the signed MSO.
 Holds since the `fix:` commit that added `issuer_data_authentication` (ISO 18013-5 9.1.2.4 digest
@@ -37,6 +38,57 @@ theorem C04_mso_signature_checked (f : Facts)
     (h : (handleResponse f).issuer = .valid) : f.issuerSigAccepts = true ∧ f.issuerPayloadAttached = true := by
   obtain ⟨_, _, _, _, _, _, _, _, _, hp, _, ha, _⟩ := (C03_issuer_valid_iff f).mp h
   exact ⟨ha, hp⟩
+
+section WireFacts
+open IsoMdl.ResponseFacts
+
+/-- THE FACT `digestsMatch`, AS THE MODEL COMPUTES IT FROM THE WIRE BYTES, MEANS WHAT C04 SAYS: when the
+executable check accepts a document against an MSO, every disclosed item of every namespace is a
+tag-24 item whose digest, under the MSO's algorithm and taken over the item exactly as sent,
+equals the MSO's valueDigests entry for that namespace and the item's digestID. -/
+theorem C04_wire_digest_check_sound (doc mso is : Cbor) (nss : List (Cbor × Cbor)) (ns : Cbor) (items : List Cbor) (it : Cbor)
+    (h : digestsMatch doc mso = true)
+    (his : mget doc (ResponseFacts.tx "issuerSigned") = some is) (hns : mget is (ResponseFacts.tx "nameSpaces") = some (.map nss))
+    (hmem : (ns, .array items) ∈ nss) (hit : it ∈ items) :
+    ∃ b iv id vdm want, it = .tag 24 (.bytes b) ∧ decodeValue b = some iv ∧ mget iv (ResponseFacts.tx "digestID") = some id ∧
+      ((mget mso (ResponseFacts.tx "valueDigests")).bind fun v => mget v ns) = some vdm ∧ mget vdm id = some (.bytes want) ∧
+      want = hashWith ((mget mso (ResponseFacts.tx "digestAlgorithm")).getD (.simple 22)) (Cbor.enc it) := by
+  unfold digestsMatch at h
+  simp only [his, hns, List.all_eq_true] at h
+  have h1 := h (ns, .array items) hmem
+  simp only [List.all_eq_true] at h1
+  have h2 := h1 it hit
+  cases it with
+  | tag t v =>
+    cases v with
+    | bytes b =>
+      by_cases ht : t = 24
+      · subst ht
+        simp only at h2
+        cases hd : decodeValue b with
+        | none => simp [hd] at h2
+        | some iv =>
+          simp only [hd] at h2
+          cases hid : mget iv (ResponseFacts.tx "digestID") with
+          | none => simp [hid] at h2
+          | some id =>
+            cases hvd : ((mget mso (ResponseFacts.tx "valueDigests")).bind fun v => mget v ns) with
+            | none => simp [hid, hvd] at h2
+            | some vdm =>
+              simp only [hid, hvd] at h2
+              cases hw : mget vdm id with
+              | none => simp [hw] at h2
+              | some w =>
+                cases w with
+                | bytes want =>
+                  simp only [hw] at h2
+                  exact ⟨b, iv, id, vdm, want, rfl, hd, hid, rfl, hw, by simpa using h2⟩
+                | _ => simp [hw] at h2
+      · simp [ht] at h2
+    | _ => simp at h2
+  | _ => simp at h2
+
+end WireFacts
 
 section Report
 open IsoMdl.Report
